@@ -4,6 +4,7 @@ CONSTANTS
   AsFound_LabourDemandLate = FALSE
   AsFound_LiteralSupGood = FALSE
   AsFound_DividendsPerPayer = FALSE
+  AsFound_FirstRecipient = FALSE
 INVARIANT TypeOK
 INVARIANT C01_SFC
 INVARIANT C04_MarketsClear
